@@ -361,6 +361,7 @@ def run_case(case):
     seed, index, flags_off = case["seed"], case["index"], case.get("flags_off", [])
     prng = random.Random("%s:C15p:%s" % (seed, index))
     prof = C.base_profile(prng, flags_off, hostile=prng.random() < 0.3)
+    prof["hostile_messages"] = prng.random() < 0.5      # messages with body lines that look like raw commit headers (`tree ...`, `parent ...`)
     a = Hist("C15", seed, index, prof)
     b = None
     try:
